@@ -26,7 +26,7 @@ pub fn render_quantity(q: &ScaledQuantity) -> String {
     let u = match q.unit() { None => "none".to_string(), Some(u) => format!("u{}", enc_text(u)) };
     format!("{} {}", render_value(q.value()), u)
 }
-fn render_opt_quantity(q: Option<&ScaledQuantity>) -> String { q.map(render_quantity).unwrap_or_else(|| "none".into()) }
+pub fn render_opt_quantity(q: Option<&ScaledQuantity>) -> String { q.map(render_quantity).unwrap_or_else(|| "none".into()) }
 fn sys_name(s: System) -> &'static str { match s { System::Metric => "metric", System::Imperial => "imperial" } }
 fn opt_sys_name(s: Option<System>) -> &'static str { s.map(sys_name).unwrap_or("-") }
 pub fn render_err(e: &ConvertError) -> String {
@@ -54,15 +54,15 @@ fn spec_number(n: &Number) -> String {
         Number::Fraction { whole, num, den, err } => format!("F{whole}/{num}/{den}/{}", bits(*err)),
     }
 }
-pub fn spec_quantity(q: &ScaledQuantity) -> String {
-    let v = match q.value() {
+pub fn spec_value(v: &Value) -> String {
+    match v {
         Value::Number(n) => format!("N{}", spec_number(n)),
         Value::Range { start, end } => format!("G{};{}", spec_number(start), spec_number(end)),
         Value::Text(t) => format!("T{}", enc_text(t)),
-    };
-    let u = match q.unit() { None => "none".to_string(), Some(u) => format!("u{}", enc_text(u)) };
-    format!("{v}@{u}")
+    }
 }
+pub fn spec_unit(u: Option<&str>) -> String { match u { None => "none".to_string(), Some(u) => format!("u{}", enc_text(u)) } }
+pub fn spec_quantity(q: &ScaledQuantity) -> String { format!("{}@{}", spec_value(q.value()), spec_unit(q.unit())) }
 fn spec_cv(v: &ConvertValue) -> String { render_cv(v) }
 
 #[derive(Clone, Debug)]
@@ -97,16 +97,16 @@ pub fn std_def(symbol: &str) -> Option<(f64, f64)> {
 }
 
 fn amount(v: f64, ratio: f64, diff: f64) -> f64 { (v + diff) * ratio }
-fn amount_u(v: f64, u: &Unit) -> f64 { amount(v, u.ratio, u.difference) }
+pub fn amount_u(v: f64, u: &Unit) -> f64 { amount(v, u.ratio, u.difference) }
 /// scale against which an amount difference is judged (so that offsets do not make 0 K special)
-fn scale_u(v: f64, u: &Unit) -> f64 { (v.abs() + u.difference.abs()) * u.ratio.abs() }
-fn close(a: f64, b: f64, scale: f64, rel: f64) -> bool { (a - b).abs() <= rel * scale.max(a.abs()).max(b.abs()) + 1e-300 }
+pub fn scale_u(v: f64, u: &Unit) -> f64 { (v.abs() + u.difference.abs()) * u.ratio.abs() }
+pub fn close(a: f64, b: f64, scale: f64, rel: f64) -> bool { (a - b).abs() <= rel * scale.max(a.abs()).max(b.abs()) + 1e-300 }
 
 fn cv_parts(v: &ConvertValue) -> Vec<f64> { match v { ConvertValue::Number(n) => vec![*n], ConvertValue::Range(r) => vec![*r.start(), *r.end()] } }
-fn value_parts(v: &Value) -> Option<Vec<f64>> {
+pub fn value_parts(v: &Value) -> Option<Vec<f64>> {
     match v { Value::Number(n) => Some(vec![n.value()]), Value::Range { start, end } => Some(vec![start.value(), end.value()]), Value::Text(_) => None }
 }
-fn in_oracle_range(v: f64) -> bool { v.is_finite() && (v == 0.0 || (v.abs() >= 1e-9 && v.abs() <= 1e12)) }
+pub fn in_oracle_range(v: f64) -> bool { v.is_finite() && (v == 0.0 || (v.abs() >= 1e-9 && v.abs() <= 1e12)) }
 
 pub struct World {
     pub conv: Converter,
@@ -369,7 +369,7 @@ fn log_grid(n: usize) -> Vec<f64> {
 const NICE: [f64; 22] = [0.125, 0.2, 0.25, 1.0 / 3.0, 0.5, 2.0 / 3.0, 0.75, 1.0, 1.5, 2.0, 2.25, 2.5, 3.0, 4.0, 5.0, 7.5, 10.0, 12.0, 16.0, 100.0, 250.0, 1000.0];
 const UNKNOWN_UNITS: [&str; 7] = ["bunch", "pinch", "", " ", "KG", "cups ", "grams of"];
 
-fn random_key(rng: &mut Rng, w: &World) -> String {
+pub fn random_key(rng: &mut Rng, w: &World) -> String {
     let u = rng.pick(&w.units);
     let keys: Vec<&Arc<str>> = u.names.iter().chain(u.symbols.iter()).chain(u.aliases.iter()).collect();
     if rng.chance(3, 4) { u.symbol().to_string() } else { rng.pick(&keys).to_string() }
